@@ -176,6 +176,20 @@ def step (s : St) (toks : List Val) (_impl : String) : St × Out :=
       let m := Model.Array2D.cellsRows a
       (s, { model := renderE m (fun rows => (ofIntss rows).render), spec := some (ofIntss g.rows).render,
             tags := ["cells", shapeTag a.w a.h] })
+  | [.w "cellss", .i h] =>   -- String() of the same grid with string cells (cells ≥ 0 only: "-" is not stripped) 
+    match s.find h with
+    | none => (s, bad)
+    | some (a, g) =>
+      let m := Model.Array2D.cellsRows a
+      (s, { model := renderE m (fun rows => (ofIntss rows).render), spec := some (ofIntss g.rows).render,
+            tags := ["cellss", shapeTag a.w a.h] })
+  | [.w "cellsf", .i h] =>   -- … with float cells
+    match s.find h with
+    | none => (s, bad)
+    | some (a, g) =>
+      let m := Model.Array2D.cellsRows a
+      (s, { model := renderE m (fun rows => (ofIntss rows).render), spec := some (ofIntss g.rows).render,
+            tags := ["cellsf", shapeTag a.w a.h] })
   | _ => (s, bad)
 
 def judge : Judge := { σ := St, init := {}, step := step }
